@@ -39,7 +39,7 @@ HOOK = {'calls': 0, 'violations': [], 'snap': {}}
 def gates(tier):
     return {'name_set_checks': 6000, 'confusable_checks': 40, 'history_steps': 60000,
             'history_sequences': 20000, 'failing_events_in_histories': 10000,
-            'cache_hits_in_histories': 5000, 'hook_calls': 60000, 'random_histories': 100}
+            'cache_hits_in_histories': 5000, 'hook_calls': 60000, 'random_histories': 100, 'absolute_probes': 500}
 
 
 # ----------------------------------------------------------------------------- (C) hook
@@ -281,6 +281,8 @@ def run_random_histories(ctx):
         # FormulaGrader, both fed strings from the same pool (they must not disturb what parse() reports)
         sg = SumGrader(answers={'lower': '1', 'upper': '4', 'summand': 'x', 'summation_variable': 'x'})
         fg = FormulaGrader(answers='x+y', variables=['x', 'y', 'f', 'k', 'depthvar'])
+        from mitxgraders import MatrixGrader
+        mg = MatrixGrader(answers='[x,y]', variables=['x', 'y'], negative_powers=False, max_array_dim=2)
         for pos, ev in enumerate(seq):
             if pos % 5 == 2:
                 lib.call(ctx, sg, None, ['abs(0-1)', 'floor(4.5)', ev[0], 'nn'])
@@ -288,6 +290,17 @@ def run_random_histories(ctx):
             elif pos % 5 == 4:
                 lib.call(ctx, fg, None, ev[0])
                 ctx.count('interleaved_grader_calls')
+            elif pos % 5 == 3:
+                # a matrix grader with negative powers switched off (its calls mostly raise on these strings), then an
+                # ABSOLUTE probe: the value of a matrix inverse does not depend on that history
+                lib.call(ctx, mg, None, ev[0])
+                ctx.count('interleaved_grader_calls')
+                probe = do_eval('[[2,0],[0,4]]^-1', A)
+                ctx.count('absolute_probes')
+                if probe[0] != 'ok' or probe[1][0] != ('arr', (2, 2), (0.5, 0.0, 0.0, 0.25)):
+                    ctx.violation('C10:history:absolute_probe', 'after a MatrixGrader(negative_powers=False) call on %r, [[2,0],[0,4]]^-1 gives %r'
+                                  % (ev[0][:60], str(probe)[:200]), {'sequence': [(s[:60], op) for s, op in seq[:pos + 1]][-8:], 'step': pos})
+                    break
             if ev not in baseline:
                 baseline[ev] = with_fresh_parser(lambda: apply_event(ev, A, B))
             got = apply_event(ev, A, B)
@@ -317,7 +330,8 @@ CONFUSABLES = [
     ('sinx+sin(x)', ['sinx', 'x'], ['sin'], []), ('5%+5k%', [], [], ['%', 'k%']), ('3M*M(M)', ['M'], ['M'], ['M']),
     ('a(b(c(d)))', ['d'], ['a', 'b', 'c'], []), ('a||b||c(d)', ['a', 'b', 'd'], ['c'], []),
     ('-x^-y', ['x', 'y'], [], []), ('x—y', ['x', 'y'], [], []), ('f(a,b)+g(a)', ['a', 'b'], ['f', 'g'], []),
-    ('E+e+2E3+2e3', ['E', 'e'], [], []), ('1.e2+1.e', [], [], ['e']), ('.5x', [], [], ['x']),
+    ('E+e+2E3+2e3', ['E', 'e'], [], []), (u'2e\u20143', [], [], []), (u'1.5E\u20142*x', ['x'], [], []), (u'.5e\u20141k', [], [], ['k']),
+    (u'x\u20142e\u20143', ['x'], [], []), ('1.e2+1.e', [], [], ['e']), ('.5x', [], [], ['x']),
     ("y_1'+y_1", ["y_1'", 'y_1'], [], []), ('a^b^c', ['a', 'b', 'c'], [], []), ('[[a]]*[[b]]', ['a', 'b'], [], []),
     ('q_{0}+q_{10}+q_{a}', ['q_{0}', 'q_{10}', 'q_{a}'], [], []), ('z(1)(2)', None, None, None),
     ('abs(x)+Abs', ['x', 'Abs'], ['abs'], []), ('i+j+e+pi', ['i', 'j', 'e', 'pi'], [], []),
@@ -361,7 +375,7 @@ def run_names(ctx):
             continue
         want = (frozenset(gen.used_vars), frozenset(gen.used_funcs), frozenset(gen.used_sufs))
         scope = lib_scope(bindings, metric)
-        for mode in ('plain', 'spaces', 'parens'):
+        for mode in ('plain', 'spaces', 'parens', 'emdash'):
             if mode == 'parens':
                 s = ''.join(G.toks(G.add_redundant_parens(node, rng)))
             else:
